@@ -301,7 +301,8 @@ func (c *Conn) processEncryptedClientHello(h *clientHello, isRetry bool) (*clien
 		eoeSeen = true
 		s := cryptobyte.String(ext.Data)
 		var want cryptobyte.String
-		if !s.ReadUint8LengthPrefixed(&want) || !s.Empty() {
+		// ExtensionType OuterExtensions<2..254>;
+		if !s.ReadUint8LengthPrefixed(&want) || !s.Empty() || want.Empty() {
 			return nil, ErrDecodeError
 		}
 		// Appendix B. Linear-time Outer Extension Processing
